@@ -29,7 +29,7 @@ type l0Config struct {
 	TxStopOnErr bool     `json:"tx_stop_on_err"`
 	WideFirst   bool     `json:"wide_first,omitempty"` // list/document: every initial replica starts with one wide operation (11-25 values: large delimiters at small clock values)
 	SoloRun     int      `json:"solo_run,omitempty"`   // after the wide operations replica 0 makes this many local calls in a row (its clock walks through 2..SoloRun+1 without gaps)
-	Nested      bool     `json:"nested,omitempty"` // documents: containers inside arrays are the playground (batches of nested values, later edits inside them)
+	Nested      bool     `json:"nested,omitempty"`     // documents: containers inside arrays are the playground (batches of nested values, later edits inside them)
 }
 
 // l0Action is one step of a history.
